@@ -11,6 +11,9 @@ pub fn g_opts_types_pub() -> GenOpts {
 fn g_opts_types() -> GenOpts {
     GenOpts { modules: (1, 3), assigns: (1, 9), max_depth: 4, max_comps: 12, values: false, defaults: true, ..GenOpts::default() }
 }
+fn g_opts_c05_class_fields() -> GenOpts {
+    GenOpts { modules: (1, 2), assigns: (1, 6), max_depth: 3, max_comps: 8, values: false, defaults: true, class_fields: true, ..GenOpts::default() }
+}
 fn g_opts_small() -> GenOpts {
     GenOpts { modules: (1, 2), assigns: (1, 6), max_depth: 3, max_comps: 6, values: false, ..GenOpts::default() }
 }
@@ -49,7 +52,95 @@ pub fn run_c02(ctx: &Ctx) -> Report {
     o.class_fields = true;
     let mut rep = cmodel::run_random(ctx, "C02", 201, n / 4, &o, rep);
     c02_collection_defaults(&mut rep);
+    c02_recursion_shapes(ctx.seed, ctx.pick(3_000u64, 60_000), &mut rep);
     rep
+}
+
+/// Small reference graphs in which a type is reached more than once: 2..3 constructed types with 1..3 components each, every
+/// component a reference to one of them (repetition and self reference allowed) - directly, through an alias, inside an
+/// anonymous SEQUENCE / CHOICE, or as element of a SEQUENCE OF - spread over one or two modules. Whatever the shape, the
+/// generated items must not contain each other by value (rustc E0072).
+fn c02_recursion_shapes(seed: u64, n: u64, rep: &mut Report) {
+    use crate::comp;
+    use crate::proj::Kind;
+    use std::collections::{BTreeMap, BTreeSet};
+    let acc = Acc::new(Report::default());
+    par_for(n, |i| {
+        let (srcs, shape) = recursion_shape_sources(seed, i);
+        let run = comp::rasn(&srcs, &comp::Cfg::default_cfg());
+        let mut local = Report::default();
+        local.evaluations += 1;
+        match &run.out {
+            comp::Outcome::Ok { generated, warnings } if warnings.is_empty() => {
+                if let Ok(mods) = crate::proj::project(generated) {
+                    let mut edges: BTreeMap<String, BTreeSet<String>> = BTreeMap::new();
+                    for m in &mods {
+                        for it in &m.items {
+                            let toks: Vec<&str> = match &it.kind {
+                                Kind::Struct { fields, .. } => fields.iter().map(|f| f.ty.as_str()).collect(),
+                                Kind::Enum { variants } => variants.iter().flat_map(|v| v.payload.iter().map(|p| p.as_str())).collect(),
+                                _ => continue,
+                            };
+                            let e = edges.entry(format!("{}::{}", m.name, it.name)).or_default();
+                            for t in toks {
+                                let t = t.strip_prefix("Option<").and_then(|x| x.strip_suffix('>')).unwrap_or(t);
+                                if t.starts_with("Box<") || t.starts_with("SequenceOf<") || t.starts_with("SetOf<") || t.starts_with("Vec<") {
+                                    continue;
+                                }
+                                // an imported name is the item of the sibling module
+                                let target = if let Some(rest) = t.strip_prefix("super::") {
+                                    rest.to_string()
+                                } else if mods.len() == 2 && !m.items.iter().any(|x| x.name == t) {
+                                    format!("{}::{}", mods.iter().find(|o| o.name != m.name).map(|o| o.name.as_str()).unwrap_or(""), t)
+                                } else {
+                                    format!("{}::{}", m.name, t)
+                                };
+                                e.insert(target);
+                            }
+                        }
+                    }
+                    // a node on a cycle reaches itself
+                    let mut cyc: Option<String> = None;
+                    for start in edges.keys() {
+                        let mut seen: BTreeSet<&String> = BTreeSet::new();
+                        let mut todo: Vec<&String> = edges[start].iter().collect();
+                        while let Some(x) = todo.pop() {
+                            if x == start {
+                                cyc = Some(start.clone());
+                                break;
+                            }
+                            if seen.insert(x) {
+                                if let Some(es) = edges.get(x) {
+                                    todo.extend(es.iter());
+                                }
+                            }
+                        }
+                        if cyc.is_some() {
+                            break;
+                        }
+                    }
+                    local.count("recursion_shapes_judged", 1);
+                    local.count(&format!("recursion_shapes_judged[{} modules]", srcs.len()), 1);
+                    if generated.contains("Box <") || generated.contains("Box<") {
+                        local.count("recursion_shapes_with_a_box", 1);
+                    }
+                    local.nontrivial.insert(hash_str(&srcs.concat()));
+                    if let Some(c) = cyc {
+                        let repeated = shape.iter().any(|s| shape.iter().filter(|x| x.split(':').next() == s.split(':').next()).count() > 1);
+                        local.violations.push(Violation {
+                            sig: format!("c02|recursion-not-boxed|reference-graph|{}", if repeated { "a-type-referenced-more-than-once" } else { "single-references" }),
+                            what: format!("the generated item `{c}` contains itself by value (edges {}): {}", shape.join(" "), one_line(&srcs.concat(), 300)),
+                            replay: serde_json::json!({"family": "recursion-shape", "seed": seed, "index": i, "sources": srcs}),
+                        });
+                    }
+                }
+            }
+            comp::Outcome::Ok { .. } => local.count("recursion_shapes[warnings]", 1),
+            _ => local.count("recursion_shapes[not Ok]", 1),
+        }
+        acc.with(|r| r.merge(local));
+    });
+    rep.merge(acc.into_inner());
 }
 
 /// Components that are collections *with a DEFAULT* (grammar G gives collections OPTIONAL or nothing): the field keeps the
@@ -282,7 +373,7 @@ pub fn run_c05(ctx: &Ctx) -> Report {
     rep.must_observe = vec!["extensibility_flags_compared".into(), "extension_groups_checked".into(), "members_compared".into(), "extensibility_flags_compared[with COMPONENTS OF]".into()];
     rep.assumptions = vec!["reference model in oracle.rs".into()];
     if ctx.replay.is_some() {
-        return cmodel::replay(ctx, "C05", &|_| g_opts_types(), &parse_c05_origin, rep);
+        return cmodel::replay(ctx, "C05", &|salt| if salt == 501 { g_opts_c05_class_fields() } else { g_opts_types() }, &parse_c05_origin, rep);
     }
     let (r, a) = ctx.pick((3, 3), (4, 4));
     let space = c05_space(r, a);
@@ -298,7 +389,10 @@ pub fn run_c05(ctx: &Ctx) -> Report {
     });
     let rep = acc.into_inner();
     let n = ctx.pick(3_000u64, 60_000);
-    let mut rep = cmodel::run_random(ctx, "C05", 500, n, &g_opts_types(), rep);
+    let rep = cmodel::run_random(ctx, "C05", 500, n, &g_opts_types(), rep);
+    // second stream: components typed by fixed-type class fields (`CQ.&id`) next to markers, additions and groups - the linker
+    // rebuilds such types when it resolves the class reference
+    let mut rep = cmodel::run_random(ctx, "C05", 501, n / 2, &g_opts_c05_class_fields(), rep);
     c05_components_of(&mut rep);
     rep
 }
@@ -667,4 +761,61 @@ pub fn run_c03(ctx: &Ctx) -> Report {
         crate::c03der::run(ctx, &mut rep);
     }
     rep
+}
+
+/// Sources and edge list (`from->to:how`) of recursion shape `i` (see `c02_recursion_shapes`); also type-checked by C01.
+pub fn recursion_shape_sources(seed: u64, i: u64) -> (Vec<String>, Vec<String>) {
+    use std::collections::BTreeSet;
+    let mut rng = Rng::for_case(seed, 2021, i);
+    let k = 2 + rng.below(2);
+    let two_modules = rng.chance(1, 4);
+    let module_of = |t: usize| if two_modules && t % 2 == 1 { "Mq2" } else { "Mq1" };
+    let mut defs: Vec<Vec<String>> = vec![vec![], vec![]];
+    let mut shape: Vec<String> = vec![];
+    let mut aliases: BTreeSet<usize> = BTreeSet::new();
+    let mut bodies: Vec<(usize, String)> = vec![];
+    for t in 0..k {
+        let kind = *rng.pick(&["SEQUENCE", "SEQUENCE", "SET", "CHOICE"]);
+        let m = 1 + rng.below(3);
+        let mut comps: Vec<String> = vec![];
+        for c in 0..m {
+            let j = rng.below(k);
+            let opt = if kind == "CHOICE" { "" } else { " OPTIONAL" };
+            let how = rng.below(8);
+            let (ty, tag) = match how {
+                0 => {
+                    aliases.insert(j);
+                    (format!("Alq{j}"), "alias")
+                }
+                1 => (format!("SEQUENCE {{ in{t}x{c} Tq{j} OPTIONAL }}"), "anonymous-sequence"),
+                2 => (format!("CHOICE {{ in{t}x{c} Tq{j}, no{t}x{c} NULL }}"), "anonymous-choice"),
+                3 => (format!("SEQUENCE OF Tq{j}"), "sequence-of"),
+                _ => (format!("Tq{j}"), "direct"),
+            };
+            shape.push(format!("{t}->{j}:{tag}"));
+            comps.push(format!("fq{t}x{c} {ty}{opt}"));
+        }
+        if kind == "CHOICE" {
+            comps.push(format!("stop{t} NULL"));
+        }
+        bodies.push((t, format!("Tq{t} ::= {kind} {{ {} }}\n", comps.join(", "))));
+    }
+    for (t, b) in &bodies {
+        defs[if module_of(*t) == "Mq2" { 1 } else { 0 }].push(b.clone());
+    }
+    for j in &aliases {
+        // the alias lives in the module of the type it names
+        defs[if module_of(*j) == "Mq2" { 1 } else { 0 }].push(format!("Alq{j} ::= Tq{j}\n"));
+    }
+    let names = |mi: usize| -> Vec<String> {
+        let mut v: Vec<String> = (0..k).filter(|t| (module_of(*t) == "Mq2") == (mi == 1)).map(|t| format!("Tq{t}")).collect();
+        v.extend(aliases.iter().filter(|j| (module_of(**j) == "Mq2") == (mi == 1)).map(|j| format!("Alq{j}")));
+        v
+    };
+    let mut srcs = vec![];
+    for mi in 0..if two_modules { 2 } else { 1 } {
+        let imports = if two_modules && !names(1 - mi).is_empty() { format!("IMPORTS {} FROM Mq{};\n", names(1 - mi).join(", "), 2 - mi) } else { String::new() };
+        srcs.push(format!("Mq{} DEFINITIONS AUTOMATIC TAGS ::= BEGIN\n{imports}{}END\n", mi + 1, defs[mi].concat()));
+    }
+    (srcs, shape)
 }
